@@ -1011,7 +1011,7 @@ class Interp:
             return [(st, Unknown("fresh-empty-set"), None)]
         if nm in ("bytearray", "bytes", "memoryview") and len(pos) == 1:
             return [(st, Unknown(f"{nm}({desc(pos[0])})"), None)]
-        if nm == "len" and len(pos) == 1 and isinstance(pos[0], AttrRef) and pos[0].attr in self.SET_ATTRS:
+        if nm == "len" and len(pos) == 1 and isinstance(pos[0], AttrRef):
             return [(st, Unknown(f"len:{pos[0].attr}"), None)]
         if nm in ("bytearray", "bytes", "list", "dict", "set", "len", "str", "type", "next", "int", "bool", "repr", "memoryview", "id", "sorted", "tuple", "min", "max", "any", "all", "iter", "enumerate", "zip", "range", "hash", "getattr"):
             return [(st, Unknown(nm), None)]
@@ -1249,7 +1249,8 @@ class Interp:
                     s2.facts[key] = t
                     if t:
                         s2.empty[b.attr] = "nonempty"
-                    s2.effects.append(self.snap(Effect("guard", norm(e)[:100], t != neg, line=getattr(e, "lineno", 0)), s2))
+                    # recorded polarity-normalised: `<x> in self.<set>` with the truth of the MEMBERSHIP, however the test was spelled
+                    s2.effects.append(self.snap(Effect("guard", f"{desc(a)} in self.{b.attr}", t, line=getattr(e, "lineno", 0), text=norm(e)[:100]), s2))
                     res.append((s2, t != neg, None))
                 return res
             return self.fork_atom(f"in({desc(a)},{desc(b)})", st, e)
